@@ -342,6 +342,7 @@ func init() {
 			c.guard("C15.1", func() { ruleGuardedFields(c, "C15.1", nil) })
 			c.guard("C15.3", func() { ruleSingleOwnerFields(c, "C15.3") })
 			c.guard("C15.4", func() { ruleReceivedEnvelopeStores(c, "C15.4") })
+			c.guard("C15.6", func() { ruleConsistentLocking(c, "C15.6") })
 			c.guard("C15.5", func() {
 				// envelopes do not share mutable parts: every envelope has its own header literal, and payloads are owned
 				// copies, not aliases of recycled codec buffers
